@@ -24,6 +24,7 @@ struct vt_in;
 #define VT_LOAD() vt_replay_load(&in)
 #define VT_MALLOC(n) malloc((n) ? (n) : 1)
 #define VT_MUL_OVERFLOW_U32(a, b) ((uint64_t)(uint32_t)(a) * (uint32_t)(b) > 0xffffffffull)
+#define VT_IN_OBJECT(p, base, n) ((char *)(p) >= (char *)(base) && (char *)(p) < (char *)(base) + (n))
 #else
 #define VT_ASSERT(c) __CPROVER_assert((c), #c)
 /* reachability witness: this "assertion" is REQUIRED to fail, i.e. c must be reachable */
@@ -31,6 +32,8 @@ struct vt_in;
 #define VT_LOAD() (in = nondet_vt_in())
 #define VT_MALLOC(n) malloc(n)
 #define VT_MUL_OVERFLOW_U32(a, b) __CPROVER_overflow_mult((uint32_t)(a), (uint32_t)(b))
+/* comparing pointers into different objects is itself flagged by cbmc, so ask for the object first */
+#define VT_IN_OBJECT(p, base, n) (__CPROVER_same_object((p), (base)) && __CPROVER_POINTER_OFFSET(p) >= __CPROVER_POINTER_OFFSET(base) && __CPROVER_POINTER_OFFSET(p) < __CPROVER_POINTER_OFFSET(base) + (n))
 #endif
 
 #endif
